@@ -1449,6 +1449,12 @@ class TransferManager(BaseManager):
                     if current_state == TransferState.FAILED:
                         await transfer.state.queue(remotely=True)
 
+                    # The peer has the download queued: an attempt to queue it
+                    # remotely that is still going on is no longer needed and
+                    # should not interfere when it fails later on
+                    if transfer._remotely_queue_task is not None:
+                        transfer._remotely_queue_task.cancel()
+
                     transfer._transfer_task = asyncio.create_task(
                         self._initialize_download(transfer, connection, message),
                         name=f'initialize-download-{task_counter()}'
